@@ -50,9 +50,32 @@ def gen_recon(wd):
                 "static void recon_mark_done(int32_t sb_col, uint32_t *sb_completed_in_row) {\n" + m.group(0) + "\n}\n")
 
 
+LR = "Source/Lib/Decoder/Codec/EbDecRestoration.c"
+
+
+def gen_lr(wd):
+    src = slicer.read(LR)
+    f = slicer.function(src, "dec_av1_loop_restoration_filter_row")
+    a = f.find("        /* Top-Right Sync*/")
+    b = f.find("        int      sx = 0", a)
+    if a < 0 or b < 0:
+        raise RuntimeError("Top-Right Sync block not found in dec_av1_loop_restoration_filter_row")
+    blk, n = re.subn(r"while \((\*sb_lr_completed_in_prev_row[^;]*?)\)\s*;", r"if (\1) return 0; /* spin-wait of the original turned into a test */", f[a:b], flags=re.S)
+    if n != 1:
+        raise RuntimeError("spin-wait of the LR row function not recognised")
+    m = re.search(r"^\s*\*sb_lr_completed_in_row = [^;]*;", f, re.M)
+    if not m:
+        raise RuntimeError("completion update of the LR row function not found")
+    with open(os.path.join(wd, "c09_lr_sync.inc"), "w") as o:
+        o.write("/* sliced verbatim from dec_av1_loop_restoration_filter_row (EbDecRestoration.c) */\n"
+                "static int lr_sync_try(EbBool is_mt, int32_t sb_row, int col_y, int tile_w_y, int w_y, int sb_col_y, int32_t *nsync_p, volatile int32_t *sb_lr_completed_in_prev_row) {\n"
+                "    int32_t nsync = *nsync_p;\n" + blk + "    *nsync_p = nsync;\n    return 1;\n}\n"
+                "static void lr_mark_done(int sb_col_y, int32_t *sb_lr_completed_in_row) {\n" + m.group(0) + "\n}\n")
+
+
 META = {
     "engine": "E5 symbolic scheduler",
-    "level_text": "TWO mechanisms of the property: the row-to-row synchronisation of the multi-threaded reconstruction stage (decode_tile_row) and of the CDEF stage (svt_cdef_sb_row_mt). Their synchronisation statements (sliced verbatim; the spin-wait is turned into a non-blocking test) run under every schedule of one worker per superblock row, for pictures 1..4 superblocks wide and 3 rows high: a superblock is filtered only after the superblocks above and above-right were filtered, and a row whose upper row is complete is never blocked.",
+    "level_text": "THREE mechanisms of the property: the row-to-row synchronisation of the multi-threaded reconstruction stage (decode_tile_row), of the CDEF stage (svt_cdef_sb_row_mt) and of the loop-restoration stage (dec_av1_loop_restoration_filter_row). Their synchronisation statements (sliced verbatim; the spin-wait is turned into a non-blocking test) run under every schedule of one worker per superblock row, for pictures 1..4 superblocks wide and 3 rows high: a superblock is filtered only after the superblocks above and above-right were filtered, and a row whose upper row is complete is never blocked.",
     "level_note": "Everything else the property states is NOT decided: tile parse / loop-filter / loop-restoration hand-offs, stage-to-stage hand-offs, data races in general, hangs of the whole pipeline, equality with single-thread output (the decoder's job bodies cannot be executed symbolically; see DESIGN.md). Teardown after multi-threaded decoding is decided under C15, the mode-info map bounds under C10.",
     "technique": "CBMC bounded symbolic execution with a symbolic row schedule over verbatim slices of the synchronisation statements",
     "assumptions": ["cdef_completed_in_row is zeroed at the start of the frame (memset in svt_av1_queue_cdef_jobs)", "one thread works on a row from left to right (get_sb_row_to_process hands out whole rows)"],
@@ -68,4 +91,8 @@ def queries(tier):
            [Query(name="recon_row_sync_%dwide" % w, harness="C09/recon_sync.c", gen=gen_recon, defines=["PW=%d" % w, "PR=3"], unwind=3 * w + 3, timeout=600,
                   funcs=[PF + ":decode_tile_row (Top-Right Sync block and completion update, sliced)"],
                   bound="tile %d superblock(s) wide, 3 superblock rows, every schedule of the three row workers" % w,
-                  what="top and top-right superblocks are reconstructed before a superblock starts; no blocked row when its upper row is complete") for w in (1, 2, 3, 4)]
+                  what="top and top-right superblocks are reconstructed before a superblock starts; no blocked row when its upper row is complete") for w in (1, 2, 3, 4)] + \
+           [Query(name="lr_row_sync_%dwide" % w, harness="C09/lr_sync.c", gen=gen_lr, defines=["PW=%d" % w, "PR=3"], unwind=3 * w + 3, timeout=600,
+                  funcs=[LR + ":dec_av1_loop_restoration_filter_row (Top-Right Sync block and completion update, sliced)"],
+                  bound="every tile width needing %d processing unit(s) of 64 samples, 3 superblock rows, every schedule of the three row workers" % w,
+                  what="top and top-right units are restored before a unit starts; no blocked row when its upper row is complete") for w in (1, 2, 3, 4)]
